@@ -215,6 +215,39 @@ def main():
         else:
             rep.violation("fixed:" + src, {"why": "expected %s, got %s %s" % ("E%d" % code if code else "acceptance", hh, codes),
                                            "source": src, "harness_request": "alpha\tcheck\td.pn\t" + esc(src), "implementation": ha[:300]})
+    # (e) every word layout: declared size x every member sequence up to length 4 (3 quick) over the five member sizes,
+    #     plus a nested word; rejected with E380 iff the typer's layout (model: Layout.typerWordSize) exceeds the declared size
+    import itertools
+    MEMBER = {1: "u8", 2: "u16", 4: "u32", 8: "u64", 16: "u128"}
+    layouts = []
+    for declared in (1, 2, 4, 8, 16):
+        for n in range(1, (4 if thorough else 3) + 1):
+            for sizes in itertools.product((1, 2, 4, 8, 16), repeat=n):
+                layouts.append((declared, sizes))
+    for sizes in itertools.product((1, 2, 4), repeat=4):
+        layouts.append((8, sizes))
+        layouts.append((16, sizes))
+    wsrc = []
+    for declared, sizes in layouts:
+        members = "".join("\tm%d: %s,\n" % (i, MEMBER[sz]) for i, sz in enumerate(sizes))
+        wsrc.append("word%d W\n{\n%s}\nfn main()\n{\n}\n" % (8 * declared, members))
+    wh = run_harness(["alpha\tcheck\tw.pn\t" + esc(src) for src in wsrc])
+    wm = run_model(["wordsize\t(" + " ".join(str(x) for x in sizes) + ")" for _, sizes in layouts])
+    for (declared, sizes), src, ha, ma in zip(layouts, wsrc, wh, wm):
+        total += 1
+        hh, hd = kv(ha)
+        codes = codes_of(hd) if hh == "err" else []
+        exp_reject = int(ma) > declared
+        got_reject = 380 in codes
+        dist["word-layout:%s" % ("E380" if exp_reject else "ok")] += 1
+        if exp_reject == got_reject and (hh == "ok") == (not exp_reject):
+            agreeing += 1
+        else:
+            rep.violation("word-layout:%d:%s" % (declared, ",".join(map(str, sizes))), {
+                "why": "word%d with members of sizes %s: laid out in %s bytes by the model, so %s expected; compiler says %s %s"
+                       % (8 * declared, list(sizes), ma, "E380" if exp_reject else "acceptance", hh, codes),
+                "source": src, "harness_request": "alpha\tcheck\tw.pn\t" + esc(src),
+                "model_request": "wordsize\t(" + " ".join(str(x) for x in sizes) + ")", "implementation": ha[:300]})
     report_broken_proof(rep)
     rep.coverage.update({
         "evaluations": total, "distinct_nontrivial": total,
@@ -223,8 +256,10 @@ def main():
                 "through initialisers, |:S|, array lengths, by-value members and (edge-free) pointer members, declarations in "
                 "random order: rejected with E413/E415/E416 iff the by-value graph has a cycle (independent closure) and iff the "
                 "incremental model reports one; (c) every type over 9 leaves x 7 constructors to nesting depth %d in 8 positions "
-                "(exhaustive) vs the legality model; (d) fixed duplicate / word-size / non-constant-length cases"
-                % (3 if thorough else 2),
+                "(exhaustive) vs the legality model; (d) fixed duplicate / word-size / non-constant-length cases; (e) every word "
+                "declaration of 5 declared sizes x every member-size sequence up to length %d (exhaustive): E380 iff the layout "
+                "model's size exceeds the declared size"
+                % (3 if thorough else 2, 4 if thorough else 3),
         "exhaustive": True,
         "traces_validated_against_impl": agreeing, "distribution": dict(dist), "samples": samples,
     })
